@@ -222,6 +222,11 @@ def cases(shard, nshards, seed, tier):
                 continue
             if mine():
                 yield {"family": "from-3d", "file": fn, "gaps": gaps, "n": 0, "pairs": []}
+        # a chain whose last nucleotides are listed after the other chains (chain A, chain B, chain A again), chains in
+        # reverse order
+        for ops in ([{"op": "split-chain", "tail": 3}], [{"op": "chain-order", "seed": "c07", "mode": "reverse"}]):
+            if not fn.endswith("6g90_1.cif") and mine():
+                yield {"family": "from-3d", "file": fn, "gaps": False, "n": 0, "pairs": [], "ops": ops}
     # multiloop-rich: random non-crossing matchings
     nml = 500 if tier == "quick" else 10000
     for i in range(nml):
@@ -352,7 +357,9 @@ def _from_3d(case, rec):
     from vmon import gen3d
 
     s = gen3d.load(case["file"])
-    det = lambda extra=None: {"file": case["file"], "gaps": case["gaps"], "info": extra}
+    if case.get("ops"):
+        s = gen3d.apply_ops(s, case["ops"])
+    det = lambda extra=None: {"file": case["file"], "gaps": case["gaps"], "ops": case.get("ops"), "info": extra}
     try:
         s2d, _ = annotator.extract_secondary_structure(s, None, case["gaps"])
     except Exception as e:
